@@ -174,6 +174,7 @@ Section P_C15.
   Local Notation gen_global_epoch_is_model := (C15_gen.gen_global_epoch_is_model P G V O C).
   Local Notation gen_stop_ends_fit := (C15_gen.gen_stop_ends_fit P G B V O C loss gradl metric nmetrics gzero gadd vzero vadd vdivn vltb requires_closure opt_step closure_opt draw).
   Local Notation gen_callbacks_once_in_order := (C15_gen.gen_callbacks_once_in_order P G B V O C loss gradl metric nmetrics gzero gadd vzero vadd vdivn vltb requires_closure opt_step closure_opt draw).
+  Local Notation gen_update_history_is_model := (C15_gen.gen_update_history_is_model P G V O C).
 
   Theorem C15_global_epoch_inv : forall (ops : list op) p o c l nbt nbv,
     let s := run_ops ops (init p o c l nbt nbv) in
@@ -284,5 +285,10 @@ Section P_C15.
       Forall (fun e => epoch_event Train e = true) lt /\
       Forall (fun e => epoch_event Valid e = true) lv.
   Proof. exact gen_callbacks_once_in_order. Qed.
+
+  Theorem C15_gen_update_history : forall ph (v : V) (s : state) (known : bool),
+    gen_update_history true known (hist ph s) v = Some (hist ph (push_hist ph v s)) /\
+    forall (h : list V), gen_update_history false true h v = Some (h ++ [v]).
+  Proof. exact gen_update_history_is_model. Qed.
 
 End P_C15.
